@@ -148,3 +148,62 @@ package contractcourt
 //@   site call advanceState as trigger-otherwise: assert !old(c.cfg.IsPendingClose) ==> arg(2) == chainTrigger
 //@   site call relaunchResolvers: assert st0 == StateWaitingFullResolution && retn(advanceState, 0) == StateWaitingFullResolution &&
 //@        arg(1) == commitSet
+//@
+//@ func (c *ChannelArbitrator) advanceState
+//@   props C13
+//@   loop * havoc
+//@   site call stateStep: assert arg(1) == triggerHeight && arg(2) == trigger && arg(3) == confCommitSet
+//@   site call CommitState: assert arg(1) == retn(stateStep, 0) && retn(stateStep, 2) == nil && retn(stateStep, 0) != c.state
+//@   site store ChannelArbitrator.state: assert value == retn(stateStep, 0) && ret(CommitState) == nil
+//@   ensures result2 == nil ==> result0 == c.state
+//@
+//@ func (c *ChannelArbitrator) handleRemoteForceCloseEvent
+//@   props C13
+//@   requires closeInfo != nil
+//@   site call InsertConfirmedCommitSet: assert ret(LogContractResolutions) == nil && arg(1) == addr(closeInfo.CommitSet)
+//@   site call MarkChannelClosed: assert ret(LogContractResolutions) == nil && ret(InsertConfirmedCommitSet) == nil
+//@   site call advanceState: assert ret(MarkChannelClosed) == nil && arg(2) == remoteCloseTrigger && arg(3) == addr(closeInfo.CommitSet) &&
+//@        arg(1) == wrap(closeInfo.SpendingHeight, 32)
+//@
+//@ func (c *ChannelArbitrator) handleLocalForceCloseEvent
+//@   props C13
+//@   requires closeInfo != nil
+//@   site call InsertConfirmedCommitSet: assert ret(LogContractResolutions) == nil && arg(1) == addr(closeInfo.CommitSet)
+//@   site call MarkChannelClosed: assert ret(LogContractResolutions) == nil && ret(InsertConfirmedCommitSet) == nil
+//@   site call advanceState: assert ret(MarkChannelClosed) == nil && arg(2) == localCloseTrigger && arg(3) == addr(closeInfo.CommitSet) &&
+//@        arg(1) == wrap(closeInfo.SpendingHeight, 32)
+//@
+//@ func (c *ChannelArbitrator) handleContractBreach
+//@   props C13
+//@   requires breachInfo != nil
+//@   site call InsertConfirmedCommitSet: assert ret(LogContractResolutions) == nil && arg(1) == addr(breachInfo.CommitSet)
+//@   site call MarkChannelClosed: assert ret(LogContractResolutions) == nil && ret(InsertConfirmedCommitSet) == nil
+//@   site call advanceState: assert ret(MarkChannelClosed) == nil && arg(2) == breachCloseTrigger && arg(3) == addr(breachInfo.CommitSet)
+//@
+//@ func (c *ChannelArbitrator) resolveContract
+//@   props C13
+//@   loop * havoc
+//@   site call SwapContract: assert retn(Resolve, 1) == nil && arg(2) == retn(Resolve, 0) && retn(Resolve, 0) != nil
+//@   site call replaceResolver: assert arg(2) == retn(Resolve, 0) && called(SwapContract)
+//@   site call ResolveContract: assert retn(Resolve, 1) == nil && retn(Resolve, 0) == nil && ret(IsResolved, 1)
+//@
+//@ func (c *ChannelArbitrator) stateStep
+//@   props C13
+//@   loop * havoc
+//@   site call prepContractResolutions: assert arg(2) == triggerHeight && arg(3) == retn(constructChainActions, 0, 1) &&
+//@        retn(constructChainActions, 1, 1) == nil
+//@   site call constructChainActions nth 1: assert arg(1) == confCommitSet && arg(2) == triggerHeight && arg(3) == trigger
+//@   site call InsertUnresolvedContracts: assert arg(2) == retn(prepContractResolutions, 0) && retn(prepContractResolutions, 1) == nil
+//@   site call resolveContracts: assert ret(InsertUnresolvedContracts) == nil && arg(1) == retn(prepContractResolutions, 0)
+//@   site call NotifyChannelResolved: assert c.state == StateFullyResolved
+//@   ensures (old(c.state) == StateWaitingFullResolution && result2 == nil && result0 == StateFullyResolved) ==>
+//@           len(retn(FetchUnresolvedContracts, 0)) == 0 && retn(FetchUnresolvedContracts, 1) == nil
+//@
+//@ func (c *ChannelArbitrator) relaunchResolvers
+//@   props C13
+//@   loop * havoc
+//@   loop 1 invariant (commitSet != nil && commitSet.ConfCommitKey.isSome) ==>
+//@        confirmedHTLCs == commitSet.HtlcSets[commitSet.ConfCommitKey.some]
+//@   site mapupdate htlcMap: assert arg(key).Hash == retn(FetchContractResolutions, 0).CommitHash
+//@   site call FetchUnresolvedContracts: assert true
+//@   site call Supplement: assert retn(FetchContractResolutions, 1) == nil && retn(FetchUnresolvedContracts, 1) == nil
